@@ -11,7 +11,7 @@
    injectivity of H, the values used as leaves are never pair hashes, the byte order is a
    strict total order.  They are satisfiable: Example C17_free_algebra below. *)
 From SC Require Import Lib.Prelude Lib.Int Lib.Host Model.Merkle Proofs.Merkle Proofs.C17Dist Run.C17
-  Proofs.MerkleInst Proofs.C17Monitor.
+  Proofs.MerkleInst Proofs.C17Monitor Proofs.MerkleHasher.
 
 (* ======================= completeness ======================= *)
 
@@ -289,6 +289,46 @@ Theorem C17_claim_only_listed_indexed :
 Proof. exact claim_only_listed_indexed. Qed.
 Print Assumptions C17_claim_only_listed_indexed.
 
+(* ======================= the Hasher level ======================= *)
+(* Model/Merkle.v Part 1b transcribes sha256.rs / keccak.rs (state : Option<Bytes>; update = set or
+   append; finalize = trap on the empty state, else the host hash), hashable.rs (hash_pair,
+   commutative_hash_pair) and the loops of merkle.rs with the hasher calls explicit.  On the paths
+   the library uses, the empty-state trap is unreachable and the result is exactly the function of
+   the theorems above for  H a b := hashfn (bytes a ++ bytes b). *)
+Theorem C17_hasher_refines_verify :
+  forall (B D : Type) (bapp : B -> B -> B) (hashfn : B -> D) (bytes_of : D -> B)
+         (deqb gtb : D -> D -> bool) (proof : list D) (root leaf : D),
+  verify_h bapp hashfn bytes_of deqb gtb proof root leaf
+  = Ok (verify deqb (fun a b => hashfn (bapp (bytes_of a) (bytes_of b))) gtb proof root leaf).
+Proof. exact verify_h_refines. Qed.
+Print Assumptions C17_hasher_refines_verify.
+
+Theorem C17_hasher_refines_verify_with_index :
+  forall (B D : Type) (bapp : B -> B -> B) (hashfn : B -> D) (bytes_of : D -> B)
+         (deqb : D -> D -> bool) (proof : list D) (root leaf : D) (index : Z),
+  verify_with_index_h bapp hashfn bytes_of deqb proof root leaf index
+  = verify_with_index deqb (fun a b => hashfn (bapp (bytes_of a) (bytes_of b))) proof root leaf index.
+Proof. exact verify_with_index_h_refines. Qed.
+Print Assumptions C17_hasher_refines_verify_with_index.
+
+(* the leaf hash of the distributor (update(xdr); finalize) never traps *)
+Theorem C17_leaf_hash_never_traps :
+  forall (B D : Type) (bapp : B -> B -> B) (hashfn : B -> D) (x : B),
+  leaf_hash_h bapp hashfn x = Ok (hashfn x).
+Proof. exact leaf_hash_h_ok. Qed.
+Print Assumptions C17_leaf_hash_never_traps.
+
+(* the injectivity premise of the theorems above, from the byte-string hash: hashfn injective and
+   the concatenation of two 32-byte blocks determines the blocks *)
+Theorem C17_pair_hash_injective :
+  forall (B D : Type) (bapp : B -> B -> B) (hashfn : B -> D) (bytes_of : D -> B),
+  (forall x y : B, hashfn x = hashfn y -> x = y) ->
+  (forall a b c d : D, bapp (bytes_of a) (bytes_of b) = bapp (bytes_of c) (bytes_of d) -> a = c /\ b = d) ->
+  forall a b c d : D,
+  hashfn (bapp (bytes_of a) (bytes_of b)) = hashfn (bapp (bytes_of c) (bytes_of d)) -> a = c /\ b = d.
+Proof. exact H_of_inj. Qed.
+Print Assumptions C17_pair_hash_injective.
+
 (* ======================= the executable instance ======================= *)
 (* The hash used when implementation traces are evaluated: lookup in the table of real hash
    evaluations performed by the harness ([At n] = n-th real digest in byte order), a formal pair
@@ -359,6 +399,11 @@ Example C17_leaf_caveat :
   verify dg_eqb Pr dg_gtb [At 2%N; At 9%N] (troot (cpair Pr dg_gtb) t) (At 1%N) = true.
 Proof. cbv zeta. split; [|vm_compute; split; reflexivity]. cbn. intros [E|[E|[]]]; discriminate. Qed.
 
+(* the table-driven hash used on implementation traces is the Hasher level over block sequences *)
+Example C17_table_hash_is_hasher_level :
+  forall t a b, hash_pair_h (@app dg) (hashfn_tab t) (fun d => [d]) a b = Ok (Htab t a b).
+Proof. reflexivity. Qed.
+
 (* the monitor rejects each kind of violation on hand-made traces (Run/C17.v, Module Examples) *)
 Example C17_monitor_rejects :
   check Examples.good = (0%N, 0%N, 0%N) /\
@@ -369,5 +414,9 @@ Example C17_monitor_rejects :
   snd (fst (check Examples.bad_failed_marks)) = 2%N /\
   snd (fst (check Examples.bad_old_root)) = 3%N /\
   snd (fst (check Examples.bad_unclaim)) = 3%N /\
-  snd (fst (check Examples.bad_pay)) = 1%N.
+  snd (fst (check Examples.bad_pay)) = 1%N /\
+  check Examples.good_unread = (0%N, 0%N, 0%N) /\
+  snd (fst (check Examples.bad_lapse)) = 3%N /\
+  snd (fst (check Examples.bad_root_lapse)) = 2%N /\
+  snd (fst (check Examples.bad_getter_trap)) = 1%N.
 Proof. vm_compute. repeat split. Qed.
